@@ -78,6 +78,9 @@ UNKNOWN = [
     ent("other", [kid("other")]),
     ent('variant_identifier', [kid("variant_identifier")]),
     ent('serialize_with = "path"', [kid("serialize_with"), "KEq", kstr("path")]),
+    # keys followed by a parenthesised list
+    ent('bound(serialize = "T: Clone")', [kid("bound"), "KGroup [%s; KEq; %s]" % (kid("serialize"), kstr("T: Clone"))]),
+    ent('made_up(a = "b", c)', [kid("made_up"), "KGroup [%s; KEq; %s; KComma; %s]" % (kid("a"), kstr("b"), kid("c"))]),
 ]
 # known keys in a form the handlers cannot parse (serde accepts them)
 LIST_FORM = [
@@ -331,6 +334,13 @@ def run(ctx):
                 ctx.known_class("serde_list_form_value", what[3:], data)
             else:
                 viol.append(data)
+    # (4b) the cargo feature `no-serde-warnings` only silences the warnings: every record is what it is without the feature
+    quiet = [canon_real(p, a) for (p, _, _), a in zip(cases, vlib.macro_hook([["attrs", p, src_of(at)] for p, at, _ in cases],
+                                                                           features=("serde-compat", "no-serde-warnings"), tag="quiet"))]
+    for (p, at, lab), r, qv in zip(cases, real, quiet):
+        if r != qv:
+            viol.append(dict(kind="property-violated", what="the feature no-serde-warnings changes what the attributes mean", position=p, source=src_of(at),
+                             record_default_features=r, record_with_no_serde_warnings=qv))
     # (5) serde compatibility switched off: serde attributes have no effect at all
     off_cases = [(p, at) for p, at, lab in cases if all(not ts for ts, _, _ in at)][: (150 if ctx.quick else 1500)]
     off_cases = [(p, []) for p in POS] + off_cases
@@ -354,7 +364,7 @@ def run(ctx):
     ctx.coverage.update({
         "evaluations": len(cases) + len(off_cases),
         "distinct_nontrivial": len(nontrivial),
-        "rule": "attribute lists built from the key tables regenerated from the source (every key of every impl_parse! table at the four positions, with values of the kind its handler expects): every shared key alone and in pairs in both spellings and mixed; both spellings with different values in both attribute orders (ts must win); every unsupported serde attribute of a 12-entry catalogue inserted at every index of every 1- and 2-entry list and in its own list; `default`/`deny_unknown_fields` with and without argument; trailing commas; the entries of a two-entry list written as two attributes in both orders and in mixed spelling; list-form values of known keys; #[ts(skip)] + serde; run through the real attribute parsers (in-process hook) and through Model/Attr.v, records compared; the property's equalities are evaluated on the REAL records; second build without serde-compat; non-trivial = distinct attribute sets whose record differs from the default",
+        "rule": "attribute lists built from the key tables regenerated from the source (every key of every impl_parse! table at the four positions, with values of the kind its handler expects): every shared key alone and in pairs in both spellings and mixed; both spellings with different values in both attribute orders (ts must win); every unsupported serde attribute of a 12-entry catalogue inserted at every index of every 1- and 2-entry list and in its own list; `default`/`deny_unknown_fields` with and without argument; trailing commas; the entries of a two-entry list written as two attributes in both orders and in mixed spelling; list-form values of known keys; #[ts(skip)] + serde; run through the real attribute parsers (in-process hook) and through Model/Attr.v, records compared; the property's equalities are evaluated on the REAL records; second build without serde-compat, third build with no-serde-warnings (records must not change); non-trivial = distinct attribute sets whose record differs from the default",
         "samples": [dict(position=cases[k][0], source=src_of(cases[k][1]), record=real[k]) for k in (0, len(cases) // 3, len(cases) // 2, len(cases) - 1)],
         "correspondence": {"cases": len(cases) + len(off_cases), "confirmed_breaks": len(corr)},
         "oracle": {"equalities_checked": len(pairs), "violations": len(viol), "known": known},
